@@ -1248,3 +1248,234 @@ def raw_stage(prop, tier, seed, replay):
         rep["floors"]["lab-raw-cells"] = [8, len([k for k in rep["matrix"] if k.startswith("lab-raw/")])]
     rep["violations"] = rep["violations"][:100]
     return rep
+
+
+# ------------------------------------------------------------------------------------------------
+# C06 / C18 lab halves: request bodies and responses of generated services of random definitions
+
+LIMITS = {"100b": 100, "2kb": 2000, "1 MiB": 1024 * 1024, "5mb": 5 * 1000 * 1000}
+DEFAULT_LIMIT = 50 * 1024 * 1024
+INJECTED = "verif-injected-stream-error"
+
+
+def endpoint_limit(e):
+    for t in e.get("tags", []):
+        if t.startswith("server-limit-request-size:"):
+            return LIMITS[t.split(":", 1)[1].strip()]
+    return DEFAULT_LIMIT
+
+
+def gen_args(wire, c, e, orig_scalar):
+    """Values for every argument of e (header strings restricted to visible ASCII); None if a type has no value."""
+    def hs(cc, p, _o=orig_scalar):
+        if p == "STRING":
+            return ("str", visible_ascii(cc.r))
+        return _o(cc, p)
+    vals = {}
+    for a in e["args"]:
+        wire.gen_scalar = hs if a["paramType"]["type"] == "header" else orig_scalar
+        try:
+            vals[a["argName"]] = wire.gen_value(c, a["type"])
+        except wire.NoValue:
+            return None
+        finally:
+            wire.gen_scalar = orig_scalar
+    return vals
+
+
+def render_valid_params(wire, e, vals):
+    """(uri, headers) of a request carrying every non-body argument (and the auth token) validly."""
+    path, query, headers = e["httpPath"], [], []
+    for a in e["args"]:
+        an, kind, v = a["argName"], a["paramType"]["type"], vals[a["argName"]]
+        if kind == "body":
+            continue
+        u = wire.unalias(v)
+        if u[0] == "opt":
+            texts = [] if u[1] is None else [plain_text(wire, u[1])]
+        elif u[0] in ("list", "set"):
+            texts = [plain_text(wire, x) for x in u[1]]
+        else:
+            texts = [plain_text(wire, v)]
+        if kind == "path":
+            path = path.replace("{" + an + "}", pct(texts[0]))
+        elif kind == "query":
+            query += [(a["paramType"]["query"]["paramId"], t) for t in texts]
+        else:
+            headers += [(a["paramType"]["header"]["paramId"].lower(), latin(t)) for t in texts]
+    if e.get("auth"):
+        cookie = e["auth"]["type"] == "cookie"
+        headers.append(("cookie", e["auth"]["cookie"]["cookieName"] + "=tok.en") if cookie else ("authorization", "Bearer tok.en"))
+    uri = path + ("?" + "&".join("%s=%s" % (pct(k), pct(v)) for k, v in query) if query else "")
+    return uri, headers
+
+
+def content_type_case(r, want_valid):
+    """(header value or None, class, names JSON?)"""
+    if want_valid:
+        return r.choice([("application/json", "exact", True)] * 3 + [("application/json; charset=utf-8", "with-parameters", True), ("APPLICATION/JSON", "upper-case", True),
+                                                                     ("application/json;q=0.1;x=y", "with-parameters", True)])
+    return r.choice([(None, "absent", False), ("text/plain", "unregistered", False), ("application/*", "wildcard", False), ("garbage", "unparsable", False),
+                     ("application/json\xff", "non-ascii", False), ("application/json+zip", "registered+suffix", False), ("application/problem+json", "other+suffix", False),
+                     ("application/x-jackson-smile", "other-registered-encoding", False), ("", "empty", False), ("application/cbor", "unregistered", False)])
+
+
+def body_case(wire, c, r, v, t, limit):
+    """One request body for value v of type t: (text, class, valid?)."""
+    canon = wire.render(c, v, t, wire.Style())
+    top_absent = wire.unalias(v)[0] == "opt" and wire.unalias(v)[1] is None     # renders as `null`
+    k = r.random()
+    if k < 0.22:
+        return canon, "canonical", True
+    if k < 0.34:
+        return wire.render(c, v, t, wire.Style(r, noncanon=True)), "non-canonical", True
+    if k < 0.42:
+        ws = r.choice([" ", "\n", "\t \r\n", "  "])
+        return r.choice([canon + ws, ws + canon, ws + canon + ws]), "surrounding-whitespace", True
+    if k < 0.56:
+        return canon + r.choice(["x", "{}", " 1", ",", "]", "}", "\x00", "null", " []", "\"", "\n\n0", " " + canon]), "trailing-data", False
+    if k < 0.68:
+        if canon[-1] in "}]\"":
+            cut = r.randint(1, min(len(canon), 6)) if r.random() < 0.7 else r.randint(1, len(canon))
+            return canon[:-cut], "truncated", False
+        return "", "empty", False
+    if k < 0.72:
+        return r.choice(["", " ", "\n"]), "empty", False
+    if k < 0.78:
+        return r.choice(["{", "[1,", "nul", "tru", "\"abc", "{\"a\":}", "[1 2]", "{'a':1}", "01", "+1", "\xff\xfe", "NaN", "[", "]", ":)\n"]), "malformed", False
+    if k < 0.86 and limit <= 2000:
+        target = limit + r.choice([-1, 0, 0, 1, 1, 2])
+        pad = target - len(canon.encode("utf-8"))
+        if pad >= 0:
+            return " " * pad + canon, "padded-to-limit%+d" % (target - limit), True
+        return canon, "canonical", True
+    sites = list(wire.fault_sites(c, v, t))
+    if not sites or top_absent:
+        return canon, "canonical", True
+    path, kind, payload, cls = r.choice(sites)
+    return wire.render(c, v, t, wire.Style(), (path, kind, payload)), "fault/" + cls, False
+
+
+def bodies_stage(prop, tier, seed, replay):
+    """C06 lab half: raw requests whose body (and Content-Type, chunking, stream error) is hostile, against the generated
+    endpoints of random definitions. Reference decision by construction, as in the in-process monitor."""
+    import wire
+    from gen import LabGen, Profile
+    build(["genrun"])
+    rr = random.Random(seed * 4001 + 6)
+    n = 3 if tier == "quick" else 12
+    labs, specs = [], []
+    for i in range(n):
+        cs = rr.getrandbits(48)
+        cfg = {"exhaustive": i % 2 == 1, "serialize_empty": rr.random() < 0.5, "strip": rr.choice([None, "com.verif", "com.verif.lab"])}
+        g = LabGen(cs, Profile(n_types=25, services=3, errors=0, hostile_names=True, body_bias=True))
+        ir = g.ir()
+        labs.append((cs, cfg, g, ir))
+        specs.append({"name": "body%d" % i, "ir": ir, "cfg": cfg, "drive": True, "driver": lab.driver_source(ir, cfg, registry=False, services=True)})
+    res = lab.build_labs("body-%s" % tier, specs)
+    rep = empty_report(prop)
+    distinct = set()
+    orig_scalar = wire.gen_scalar
+    BIN = {"type": "primitive", "primitive": "BINARY"}
+    for i, (cs, cfg, g, ir) in enumerate(labs):
+        name = "body%d" % i
+        if res.gen.get(name, {}).get("status") != "ok" or not res.compiled.get(name):
+            raise Inconclusive("service lab %s did not build: %s %s" % (name, res.gen.get(name), res.errors.get(name)))
+        r = random.Random(cs ^ 0xC06)
+        c = wire.Ctx(g, r, cfg["exhaustive"], cfg["serialize_empty"])
+        cases, info = [], {}
+        for s in ir["services"]:
+            sn = s["serviceName"]["name"]
+            for e in s["endpoints"]:
+                bodies = [a for a in e["args"] if a["paramType"]["type"] == "body"]
+                if not bodies:
+                    continue
+                ba = bodies[0]
+                bt = wire.dealias(c, ba["type"])
+                if bt == BIN or (bt["type"] == "optional" and wire.dealias(c, bt["optional"]["itemType"]) == BIN):
+                    continue        # streaming binary bodies are not "serializable request bodies"
+                optional = bt["type"] == "optional"
+                limit = endpoint_limit(e)
+                for k in range(10 if tier == "quick" else 40):
+                    vals = gen_args(wire, c, e, orig_scalar)
+                    if vals is None:
+                        continue
+                    uri, headers = render_valid_params(wire, e, vals)
+                    v = vals[ba["argName"]]
+                    text, bcls, valid = body_case(wire, c, r, v, ba["type"], limit)
+                    ct, ctcls, names_json = content_type_case(r, r.random() < 0.8)
+                    fail_at = r.choice([0, 0, 1, 2, 3, 50]) if r.random() < 0.12 else None
+                    if ct is not None:
+                        headers = headers + [("content-type", ct)]
+                    data = b"\xff\xfe" if text == "\xff\xfe" else text.encode("utf-8")
+                    absent_optional = optional and ct is None
+                    if absent_optional:
+                        accept = True
+                    elif not names_json or fail_at is not None or len(data) > limit:
+                        accept = False
+                    else:
+                        accept = valid
+                    for flavour in ("raw-sync", "raw-async"):
+                        cid = len(cases) + 1
+                        cases.append({"id": cid, "ty": "%s/%s" % (sn, flavour), "op": "raw", "http_method": e["httpMethod"], "uri": uri, "headers": headers,
+                                      "body": data.decode("latin-1"), "fail_at": fail_at})
+                        info[cid] = (sn, e, flavour, ba, v, bcls, ctcls, fail_at, accept, absent_optional, len(data), limit, text)
+        results = lab.run_lab(res, name, cases)
+        if "__crash__" in results:
+            rep["violations"].append(violation("lab-bodies", cs, "lab-crashed", {"crash": results["__crash__"]}))
+            continue
+        for cid, (sn, e, flavour, ba, v, bcls, ctcls, fail_at, accept, absent_optional, size, limit, text) in info.items():
+            out = results.get(cid) or {}
+            rep["evaluations"] += 1
+            nchunks = out.get("chunks", 0)
+            chunk_class = str(nchunks) if nchunks < 3 else "3+"
+            for cell in ("lab-body/%s" % bcls.split("/")[0], "lab-content-type/%s" % ctcls, "lab-chunks/%s/%s" % (flavour, chunk_class)) + (("lab-stream-error/%s/%s" % (flavour, chunk_class),) if fail_at is not None else ()):
+                rep["matrix"][cell] = rep["matrix"].get(cell, 0) + 1
+            distinct.add(fnv("%s|%s|%s|%s|%s|%s" % (flavour, bcls, ctcls, chunk_class, fail_at is not None, size > limit)))
+            det = {"service": sn, "endpoint": e["endpointName"], "flavour": flavour, "body_class": bcls, "content_type_class": ctcls, "stream_error_at": fail_at, "chunks": nchunks,
+                   "body": text[:400], "body_len": size, "limit": limit, "expected_accept": accept, "observed": json.dumps(out)[:700]}
+            def fail(sig):
+                rep["violations"].append(violation("lab-bodies", cs, "generated-endpoint:%s:%s" % (flavour, sig), det))
+            result, calls = out.get("result", {}), out.get("calls", [])
+            if "panic" in result:
+                fail("panic:" + bcls.split("/")[0])
+                continue
+            if accept:
+                harness_err = str(result.get("cause", "")).startswith("harness:")
+                if len(calls) != 1 or not ("ok" in result or harness_err):
+                    fail("rejected-valid:%s:%s" % (bcls.split("/")[0], ctcls))
+                    continue
+                got = dict((k, x) for k, x in calls[0]["args"]).get(ba["argName"])
+                try:
+                    if got is None:
+                        raise wire.Mismatch("body argument not recorded")
+                    if absent_optional:
+                        if strict_loads(got) is not None:
+                            raise wire.Mismatch("an optional body without Content-Type was delivered as %s" % got[:80])
+                    else:
+                        wire.check(c, v, ba["type"], strict_loads(got))
+                except (wire.Mismatch, ValueError) as ex:
+                    det["mismatch"] = str(ex)[:300]
+                    fail("handler-saw-different-value:" + bcls.split("/")[0])
+                continue
+            if calls:
+                why = "stream-error" if fail_at is not None else ("content-type:" + ctcls if ctcls not in ("exact", "with-parameters", "upper-case") else ("oversize" if size > limit else bcls))
+                fail("accepted:" + why)
+                continue
+            if "err" not in result:
+                fail("no-error:" + bcls.split("/")[0])
+                continue
+            admissible = result["err"] == "InvalidArgument" or (fail_at is not None and INJECTED in str(result.get("cause", "")))
+            if not admissible:
+                det["code"] = result["err"]
+                fail("wrong-error:%s:%s" % (result["err"], bcls.split("/")[0]))
+                continue
+            if len(rep["samples"]) < 3 and bcls not in ("canonical",):
+                rep["samples"].append({"sub": "lab-bodies", "case_seed": cs, "endpoint": e["endpointName"], "body_class": bcls, "content_type": ctcls, "chunks": nchunks,
+                                       "stream_error_at": fail_at, "code": result["err"]})
+    rep["distinct"] = sorted(distinct)
+    if not replay:
+        rep["floors"]["lab-body-classes"] = [8, len([k for k in rep["matrix"] if k.startswith("lab-body/")])]
+        rep["floors"]["lab-content-type-classes"] = [6, len([k for k in rep["matrix"] if k.startswith("lab-content-type/")])]
+    rep["violations"] = rep["violations"][:100]
+    return rep
